@@ -45,6 +45,17 @@ def _targets(t: ast.AST) -> List[ast.AST]:
     return [t]
 
 
+def _elementwise(value: ast.AST, i: int, n: int) -> Optional[ast.AST]:
+    if isinstance(value, (ast.Tuple, ast.List)) and len(value.elts) == n and not any(isinstance(e, ast.Starred) for e in value.elts):
+        return value.elts[i]
+    if isinstance(value, ast.IfExp):
+        a, b = _elementwise(value.body, i, n), _elementwise(value.orelse, i, n)
+        if a is not None and b is not None:
+            r = ast.IfExp(test=value.test, body=a, orelse=b)
+            return ast.copy_location(r, value)
+    return None
+
+
 class Flow:
     def __init__(self, func: Func):
         self.func = func
@@ -82,6 +93,18 @@ class Flow:
                 continue
             if isinstance(st, ast.Assign):
                 simple = len(st.targets) == 1 and not isinstance(st.targets[0], (ast.Tuple, ast.List))
+                # a, b = x, y   /   a, b = (x, y) if c else (u, v): element-wise values (the right-hand side is evaluated
+                # before any target is bound, and the value of a definition is expanded with the facts reaching INTO its node)
+                if len(st.targets) == 1 and isinstance(st.targets[0], (ast.Tuple, ast.List)) and \
+                        all(isinstance(e, (ast.Name, ast.Attribute)) for e in st.targets[0].elts):
+                    elts = st.targets[0].elts
+                    vals = [_elementwise(st.value, i, len(elts)) for i in range(len(elts))]
+                    if all(v is not None for v in vals):
+                        for t, val in zip(elts, vals):
+                            v = attr_path(t)
+                            if v:
+                                self._add(Def(v, n, val, 'assign', st))
+                        continue
                 for tt in st.targets:
                     for t in _targets(tt):
                         v = attr_path(t)
